@@ -803,6 +803,9 @@ func (cs *ContractSet) LoadFile(file, pkgPath string) error {
 				if f[0] == "stableghost" {
 					cs.Scan = append(cs.Scan, fmt.Sprintf("assumed: un-framed callees of %s do not modify ghost %s (%s:%d)", cur.Key, strings.Join(f[1:], " "), file, rc.line))
 				}
+				if f[0] == "trustposts" {
+					cs.Scan = append(cs.Scan, fmt.Sprintf("post-conditions of %s are trusted, not proved: %s (%s:%d)", cur.Key, strings.Join(f[1:], " "), file, rc.line))
+				}
 				if f[0] == "trusted" || f[0] == "assume" {
 					cs.Scan = append(cs.Scan, fmt.Sprintf("%s on %s (%s:%d)", f[0], cur.Key, file, rc.line))
 				}
